@@ -53,7 +53,8 @@ func (rw *unescapeRewriter) WriteFieldBody(value string, record *base.LogRecord,
 	if record.Unescaped {
 		return copy(buffer, value)
 	}
-	record.Unescaped = true
+	// The record must not be marked as unescaped here: only the output is unescaped, not the field in the record,
+	// which is to be serialized again for other outputs
 	first := unescaper.FindFirst(value)
 	if first == -1 {
 		return copy(buffer, value)
